@@ -585,6 +585,21 @@ Fixpoint cond_acon (c : cond) : acon :=
 Definition narrow (v : value) (c : cond) (pol : bool) : value :=
   constrain v (if pol then cond_acon c else invert (cond_acon c)).
 
+(* visit_BoolOp visits its second operand in a sub-scope where x is already narrowed by the
+   first one (by its negation for `or`) and then merges the sub-scopes back: the value of x the
+   whole condition's constraint is applied to is V plus that narrowed copy *)
+Fixpoint boolop_merge (v : value) (c : cond) : value :=
+  match c with
+  | CNot c => boolop_merge v c
+  | CAnd a _ => v ++ narrow v a true
+  | COr a _ => v ++ narrow v a false
+  | _ => v
+  end.
+
+(* what `if <c>: ... else: ...` makes of x end to end (for and/or whose operands are not and/or) *)
+Definition narrow_e2e (v : value) (c : cond) (pol : bool) : value :=
+  constrain (boolop_merge v c) (if pol then cond_acon c else invert (cond_acon c)).
+
 (* the tested type of a condition (for "never widens") *)
 Fixpoint tested (c : cond) : value :=
   match c with
